@@ -168,6 +168,8 @@ func (b *Broker) connect(
 	key string,
 	proxy func(context.Context, *slog.Logger) error,
 ) {
+	verifPoint(ctx, "admit", dir, key)
+	defer verifPoint(ctx, "done", dir, key)
 	b.mu.Lock()
 	defer b.mu.Unlock()
 
@@ -308,6 +310,7 @@ func (b *Broker) connect(
 
 	/* Relock B, which will be unlocked by a defer, above, and start the
 	shell disconnecting. */
+	verifPoint(ctx, "release", dir, key)
 	b.mu.Lock()
 	b.key = ""
 	*cancelUs = nil
